@@ -14,7 +14,8 @@ CHECKS['C01'] = ('deviation-bounded product space (<=3 quick / <=4 thorough simu
                  'tiered spelling alphabets from a 90-entry catalogue) over abstract peptides rendered by an independent '
                  'ProForma writer; all ordered pairs/triples of 10 chains x link words; parse fields, re-parse equality '
                  'and re-serialisation fixpoint checked on every state for both plus spellings and both include_plus '
-                 'values', 'DESIGN.md section 4 / C01')
+                 'values; history clauses on parse results (editing one modification object of a result changes exactly that one; '
+                 'parsing again after every object of an earlier result was edited)', 'DESIGN.md section 4 / C01')
 CHECKS['C06'] = ('three exhaustive layers: cleavage sites for every protein string (len<=5 quick / 6 thorough, 9 letters) x 19 '
                  'named proteases + 10 user regexes against hand-written predicates / a stdlib-re scan; every site subset '
                  'of {0..n} (n<=7 / 9) x mc 0..4 x semi x min/max for all span builders against a set comprehension; '
@@ -33,7 +34,8 @@ CHECKS['C10'] = ('complete enumeration of the bundled vocabularies (1522 Unimod,
 CHECKS['C17'] = ('every pair of sorted m/z lists (with repetitions) of length 0..3 (quick) / 0..4 (thorough) over a dyadic '
                  '6-value grid x {th,ppm} x 5 tolerances each x {all,closest,largest} x every intensity assignment, '
                  '(incl. zero) against a quadratic brute-force matcher; fragment-match layer over every ordered selection of <=3 of 6 '
-                 'real fragments x <=3 of 6-8 peaks (duplicate m/z, zero intensity) (order independence, intensity share, coverage)',
+                 'real fragments x <=3 of 6-8 peaks (duplicate m/z, zero intensity) (order independence, intensity share, coverage); '
+                 'long layer: pairs of arithmetic progressions of length 0..30 x 10 tolerances x 3 modes',
                  'DESIGN.md section 4 / C17')
 CHECKS['C13'] = ('every residue string of length 1..3 (quick) / 1..4 (thorough) over {P,E,K} x pre-existing modifications x 16 '
                  'internal rule sets x 16-20 terminal rule pairs x max_mods 0..4 x 3 modes x 2 return types; static '
@@ -56,7 +58,8 @@ CHECKS['C05'] = ('every residue string of length 2..3 (quick) / 2..4 (thorough) 
                  'fragment() and the Fragmenter class; every ion of all 6 terminal, 9 '
                  'internal and the immonium series at charges 1..4, monoisotopic and average, against independently '
                  'computed backbone-cleavage chemistry from the frozen NIST table; b/y complementarity; the same through '
-                 'mass(ion_type=...)', 'DESIGN.md section 4 / C05')
+                 'mass(ion_type=...); long layer: every cyclic window of length 5..15 of fixed 22-letter words, plain and modified; '
+                 'the same Fragmenter asked twice', 'DESIGN.md section 4 / C05')
 CHECKS['C04'] = ('every peptide of length 1..4 (quick) / 1..5 (thorough) over {S,K,G,M} x {16 single ion types, 4 classes, all}; '
                  'all 120 ion-type pairs; deviation<=2 option grid (charge lists, isotope lists, 8 loss configurations, '
                  'max_losses, average mode, precision); modified peptides (N-/C-term, residue, static, isotope-label); '
@@ -68,7 +71,7 @@ CHECKS['C12'] = ('every residue string of length 1..3 (quick) / 1..4 (thorough) 
                  '(mono/avg, ions p,b,y,c,z), composition, fragments, modified-residue counts of the rule form vs the '
                  'explicit form written by the harness, condensation = explicit form; isotope labels {13C,15N,18O,17O,34S,'
                  'D,T,2H} and 9 pairs: label shift = atom count x NIST isotope difference, with/without '
-                 'use_isotope_on_mods', 'DESIGN.md section 4 / C12')
+                 'use_isotope_on_mods; one parsed object asked count / condense / mass / condense in turn', 'DESIGN.md section 4 / C12')
 CHECKS['C11'] = ('deviation-bounded space of abstract peptides (tagged residue modifications, terminal, labile, static, isotope, '
                  'unknown, charge, interval layouts) on all {A,K} strings of length<=4/5 and distinct-residue strings of '
                  'length<=5/6; on every state every reverse(+-swap), shift in [-2n,2n], shuffle seed 0..7, sort, slice '
@@ -90,13 +93,16 @@ CHECKS['C19'] = ('deviation-bounded space (<=3 of 10 slots) of abstract peptides
 CHECKS['C18'] = ('deviation-bounded space (<=3 of 11 slots incl. unknown-position, interval, labile, static with residue and '
                  'N-Term/C-Term targets, isotope labels, charge/adducts) x include_plus x precision 3..8: output parses, '
                  'same residues, only numeric modifications, neutral mass preserved within (#shifts) x 0.5e-precision, '
-                 'shifts exactly on the residues/termini modified in the explicit form, unmodified input unchanged',
+                 'shifts exactly on the residues/termini modified in the explicit form, unmodified input unchanged; one parsed object '
+                 'rewritten repeatedly and after mass/composition/fragment queries',
                  'DESIGN.md section 4 / C18')
 CHECKS['C07'] = ('deviation-bounded space (<=3 of 10 slots) of modified proteins (14 quick / 41 thorough residue strings over '
                  '{K,R,P,D,A}) x 6 protease rules x mc 0..3 x semi x 5 return types + the 4 semi-/non-enzymatic generators: '
                  'every peptide = slice of the abstract protein (residue mods re-indexed, terminal mods only with their '
                  'terminus, intervals, static/isotope carried), string == annotation, found at its offset, mass '
-                 'conservation of the zero-missed-cleavage peptides', 'DESIGN.md section 4 / C07')
+                 'conservation of the zero-missed-cleavage peptides; full product: every protein of length 1..4 (quick) / 1..6 '
+                 '(thorough) over {K,R,P,D,A}, plain and with every residue tagged by its position; histories digest-edit-digest '
+                 'and queries-then-digest on one object', 'DESIGN.md section 4 / C07')
 CHECKS['C14'] = ('every composition with <=7 (quick) / <=12 (thorough, 18563) atoms over C,H,N,O,S,P compared cluster by cluster with '
                  'the exact multinomial expansion from the frozen isotope table at resolutions 5 and 6; identity clauses '
                  '(sorted, max/sum normalisation, lightest peak = monoisotopic mass incl. e/p/n, mean = average mass, '
